@@ -32,11 +32,12 @@ import (
 )
 
 type anchorDecl struct {
-	Scope string `json:"scope"` // "<rel pkg>" for package level, "<rel pkg>.<Type>" for methods and fields
-	Kind  string `json:"kind"`  // func method type field var const
-	Name  string `json:"name"`
-	Sig   string `json:"sig"`   // type string, module type names as declared in the reference tree
-	Shape string `json:"shape"` // hash of the name-free node-kind sequence of the body / type expression
+	Scope  string   `json:"scope"` // "<rel pkg>" for package level, "<rel pkg>.<Type>" for methods and fields
+	Kind   string   `json:"kind"`  // func method type field var const
+	Name   string   `json:"name"`
+	Sig    string   `json:"sig"`              // type string, module type names as declared in the reference tree
+	Shape  string   `json:"shape"`            // hash of the name-free node-kind sequence of the body / type expression
+	Params []string `json:"params,omitempty"` // parameter and named-result names of a function (receiver excluded)
 }
 
 type declInfo struct {
@@ -152,6 +153,12 @@ func enumerateDecls(repo string, mod []*packages.Package, canon map[types.Object
 					if o := p.TypesInfo.Defs[x.Name]; o != nil {
 						bodies[o] = x.Type
 					}
+				case *ast.ValueSpec:
+					for k, nm := range x.Names {
+						if o := p.TypesInfo.Defs[nm]; o != nil && k < len(x.Values) {
+							bodies[o] = x.Values[k]
+						}
+					}
 				}
 				return true
 			})
@@ -187,6 +194,12 @@ func enumerateDecls(repo string, mod []*packages.Package, canon map[types.Object
 				}
 				d.Sig = tstr(types.NewSignatureType(nil, nil, nil, sig.Params(), sig.Results(), sig.Variadic()))
 				d.Shape = shapeOf(bodies[o])
+				for k := 0; k < sig.Params().Len(); k++ {
+					d.Params = append(d.Params, sig.Params().At(k).Name())
+				}
+				for k := 0; k < sig.Results().Len(); k++ {
+					d.Params = append(d.Params, sig.Results().At(k).Name())
+				}
 			case *types.TypeName:
 				if v.Parent() != p.Types.Scope() {
 					continue
@@ -213,6 +226,7 @@ func enumerateDecls(repo string, mod []*packages.Package, canon map[types.Object
 				case v.Parent() == p.Types.Scope():
 					d.Kind = "var"
 					d.Sig = tstr(v.Type())
+					d.Shape = shapeOf(bodies[o])
 				default:
 					if !withParams || !params[id] {
 						continue
@@ -226,6 +240,7 @@ func enumerateDecls(repo string, mod []*packages.Package, canon map[types.Object
 				}
 				d.Kind = "const"
 				d.Sig = tstr(v.Type()) + "=" + v.Val().ExactString()
+				d.Shape = shapeOf(bodies[o])
 			default:
 				continue
 			}
@@ -415,6 +430,17 @@ func syntacticNames(repo string, overlay map[string][]byte) map[string]bool {
 		for _, d := range f.Decls {
 			switch x := d.(type) {
 			case *ast.FuncDecl:
+				pn := func(scope string) {
+					for _, fl := range []*ast.FieldList{x.Type.Params, x.Type.Results} {
+						if fl != nil {
+							for _, fd := range fl.List {
+								for _, nm := range fd.Names {
+									names[scope+"|"+x.Name.Name+"("+nm.Name+")"] = true
+								}
+							}
+						}
+					}
+				}
 				if x.Recv != nil && len(x.Recv.List) == 1 {
 					t := x.Recv.List[0].Type
 					if s, ok := t.(*ast.StarExpr); ok {
@@ -425,9 +451,11 @@ func syntacticNames(repo string, overlay map[string][]byte) map[string]bool {
 					}
 					if id, ok := t.(*ast.Ident); ok {
 						names[rel+"."+id.Name+"|"+x.Name.Name] = true
+						pn(rel + "." + id.Name)
 					}
 				} else {
 					names[rel+"|"+x.Name.Name] = true
+					pn(rel)
 				}
 			case *ast.GenDecl:
 				for _, sp := range x.Specs {
@@ -474,6 +502,11 @@ func normaliseOverlay(repo string, base map[string][]byte, anchorsFile string) (
 		if !syn[a.Scope+"|"+a.Name] {
 			missing = true
 			break
+		}
+		for _, pn := range a.Params {
+			if pn != "" && pn != "_" && !syn[a.Scope+"|"+a.Name+"("+pn+")"] {
+				missing = true
+			}
 		}
 	}
 	if !missing {
@@ -568,6 +601,47 @@ func normaliseOverlay(repo string, base map[string][]byte, anchorsFile string) (
 					usedN[pick] = true
 					canon[gr.n[pick].obj] = a.Name
 					notes = append(notes, fmt.Sprintf("%s %s.%s is analysed under its reference name %s", a.Kind, a.Scope, gr.n[pick].Name, a.Name))
+				}
+			}
+		}
+	}
+	// parameters and named results of functions (matched by reference name), by position
+	{
+		cur := enumerateDecls(repo, mod, canon, false)
+		byKey := map[string]declInfo{}
+		for _, d := range cur {
+			if d.Kind == "func" || d.Kind == "method" {
+				nm := d.Name
+				if cn, ok := canon[d.obj]; ok {
+					nm = cn
+				}
+				byKey[d.Scope+"|"+d.Kind+"|"+nm] = d
+			}
+		}
+		for _, a := range ref {
+			d, ok := byKey[a.Scope+"|"+a.Kind+"|"+a.Name]
+			if !ok || len(a.Params) == 0 || d.Sig != a.Sig {
+				continue
+			}
+			fo, _ := d.obj.(*types.Func)
+			if fo == nil {
+				continue
+			}
+			sig := fo.Type().(*types.Signature)
+			var vars []*types.Var
+			for k := 0; k < sig.Params().Len(); k++ {
+				vars = append(vars, sig.Params().At(k))
+			}
+			for k := 0; k < sig.Results().Len(); k++ {
+				vars = append(vars, sig.Results().At(k))
+			}
+			if len(vars) != len(a.Params) {
+				continue
+			}
+			for k, v := range vars {
+				if a.Params[k] != "" && a.Params[k] != "_" && v.Name() != "" && v.Name() != "_" && v.Name() != a.Params[k] {
+					canon[v] = a.Params[k]
+					notes = append(notes, fmt.Sprintf("parameter %s of %s.%s is analysed under its reference name %s", v.Name(), a.Scope, a.Name, a.Params[k]))
 				}
 			}
 		}
